@@ -474,10 +474,17 @@ class Samples(BaseSamples):
         self.evidence_error = self.xp.sqrt(
             self.xp.sum((self.weights - self.evidence) ** 2) / (n * (n - 1))
         )
-        self.log_evidence_error = self.xp.abs(
-            self.evidence_error / self.evidence
-        )
+        # Compute the relative error from max-shifted weights so that it
+        # stays finite when the weights over/underflow exp()
         log_w = self.log_w - self.xp.max(self.log_w)
+        scaled_w = self.xp.exp(log_w)
+        scaled_evidence = self.xp.mean(scaled_w)
+        self.log_evidence_error = (
+            self.xp.sqrt(
+                self.xp.sum((scaled_w - scaled_evidence) ** 2) / (n * (n - 1))
+            )
+            / scaled_evidence
+        )
         self.effective_sample_size = self.xp.exp(
             asarray(logsumexp(log_w) * 2 - logsumexp(log_w * 2), self.xp)
         )
